@@ -397,7 +397,17 @@ def _result_type(tname: str, **kw):
 RV = _result_type('RV')
 RJ = _result_type('RJ', cache=JCache())
 RZ = _result_type('RZ', cache=None)
-RESULT_TYPES = {'RV': RV, 'RJ': RJ, 'RZ': RZ}
+
+
+def _rs_run(self):
+    v = _rv_run(self)
+    v['produced_by'] = self       # the result embeds the task object that produced it
+    return v
+
+
+RS = labtech.task()(type('RS', (), {'__annotations__': {'name': str, 'shape': Any, 'deps': Any}, 'run': _rs_run, '__module__': MODULE,
+                                    '__qualname__': 'RS', 'deps': None}))
+RESULT_TYPES = {'RV': RV, 'RJ': RJ, 'RZ': RZ, 'RS': RS}
 
 
 # ---------------------------------------------------------------------------------------------------
